@@ -470,10 +470,11 @@ def _process_worker(
                 mp.util.info("Shutting down worker on sentinel")
         except queue.Empty:
             mp.util.info(f"Shutting down worker after timeout {timeout:0.3f}s")
-            if processes_management_lock.acquire(block=False):
+            # Only probe the lock, without taking it: a worker killed while
+            # holding it would leave it locked forever for the parent process.
+            if not processes_management_lock._semlock._is_zero():
                 if _verif.ENABLED:
                     _verif.point("worker.mgmt_probe")
-                processes_management_lock.release()
                 call_item = None
             else:
                 mp.util.info("Could not acquire processes_management_lock")
